@@ -37,3 +37,11 @@ def fd9(x9=0):
 
 def fd10(*, x10=None):
     return None
+
+
+def make0():
+    return Own()
+
+
+def fann(opts: dict, flag=None):
+    return None
